@@ -18,7 +18,23 @@ def _range(lo, hi):
     return z3.Range(z3.StringVal(chr(lo)), z3.StringVal(chr(hi)))
 
 
+def _cls_icase(av):
+    from sx import sre as _sxsre
+
+    neg, ranges = _sxsre._icase_ranges(av)
+    parts = [z3.Re(_ch(a)) if a == b else _range(a, b) for a, b in ranges]
+    u = parts[0] if len(parts) == 1 else z3.Union(*parts)
+    if neg:
+        return z3.Intersect(z3.AllChar(z3.ReSort(z3.StringSort())), z3.Complement(u))
+    return u
+
+
+_ICASE = [False]
+
+
 def _cls(av):
+    if _ICASE[0]:
+        return _cls_icase(av)
     neg = False
     parts = []
     for op, a in av:
@@ -40,7 +56,7 @@ def _seq(nodes, python_dollar=True):
     res = []
     for op, av in nodes:
         if op is sc.LITERAL:
-            res.append(z3.Re(_ch(av)))
+            res.append(_cls_icase([(sc.LITERAL, av)]) if _ICASE[0] else z3.Re(_ch(av)))
         elif op is sc.IN:
             res.append(_cls(av))
         elif op is sc.ANY:
@@ -79,7 +95,13 @@ def _seq(nodes, python_dollar=True):
 
 
 def to_z3(pattern, flags=0):
-    return _seq(list(sre_parse.parse(pattern, flags)))
+    import re as _re
+
+    _ICASE[0] = bool(flags & _re.IGNORECASE)
+    try:
+        return _seq(list(sre_parse.parse(pattern, flags)))
+    finally:
+        _ICASE[0] = False
 
 
 def not_included(lib_pattern, lib_flags, rfc_pattern, timeout_ms=60000):
